@@ -101,7 +101,23 @@ func (fr *Frame) call(in ssa.Value, cc *ssa.CallCommon, st *State) Val {
 			fr.causalRead(cc, args, st, pos)
 			return wrap(fr.ndInvoke(iv, rt, cc.Method, args, st, pos))
 		}
-		panic(vcErr("invoke of %s.%s unsupported", rt, cc.Method.Name()))
+		// any other interface: by the interface contract "iface Type.Method(...)"
+		if nt, ok := rt.(*types.Named); ok {
+			if fc := c.cs.Ifaces[nt.Obj().Name()+"."+cc.Method.Name()]; fc != nil {
+				iv, ok := recv.(IfaceV)
+				if !ok {
+					panic(vcErr("invoke on %T", recv))
+				}
+				c.oblige(st, "nil", "", nil, app(SBool, ">", iv.Ref, intLit(0)), pos, "receiver of "+cc.Method.Name()+" is not nil")
+				sig := cc.Method.Type().(*types.Signature)
+				names := []string{"x"}
+				for i := 0; i < sig.Params().Len(); i++ {
+					names = append(names, sig.Params().At(i).Name())
+				}
+				return wrap(fr.callByContract(fc, sig, names, append([]Val{iv}, args...), st, pos, nt.Obj().Name()+"."+cc.Method.Name()))
+			}
+		}
+		panic(vcErr("invoke of %s.%s unsupported (no interface contract)", rt, cc.Method.Name()))
 	}
 	switch callee := cc.Value.(type) {
 	case *ssa.Builtin:
@@ -119,6 +135,20 @@ func (fr *Frame) call(in ssa.Value, cc *ssa.CallCommon, st *State) Val {
 	if fv.Nil {
 		c.oblige(st, "nil", "", nil, tFalse, pos, "call of a nil function")
 		return wrap(nil)
+	}
+	// a factory-like unknown function (no scalar result): returns a new, unknown object
+	if fv.Sig != nil && fv.Sig.Results().Len() == 1 {
+		if _, basic := sortOfBasic(fv.Sig.Results().At(0).Type()); !basic {
+			c.declareFun(fv.Sym+"_isnil", nil, SBool)
+			c.oblige(st, "nil", "", nil, not(T{fv.Sym + "_isnil", SBool}), pos, "call of a nil function")
+			c.note("call of an unknown function value modelled as returning an unconstrained non-nil object without side effects (A-EXTERNAL)")
+			v := c.freshVal(st, "obj", fv.Sig.Results().At(0).Type())
+			if iv, ok := v.(IfaceV); ok {
+				iv.Ref = c.newID(st)
+				v = iv
+			}
+			return wrap([]Val{v})
+		}
 	}
 	// uninterpreted pure function (A-PURE-FN)
 	c.note("function-typed parameters are pure, deterministic functions (A-PURE-FN)")
@@ -204,7 +234,7 @@ func (fr *Frame) staticCall(callee *ssa.Function, free []Val, args []Val, st *St
 			return fr.callByContract(vfc, callee.Signature, paramNames(callee), args, st, pos, callee.String()+"#"+c.fc.Variant)
 		}
 	}
-	if fc := c.contractOf(callee); fc != nil && !fc.Inline && callee != c.top {
+	if fc := c.contractOf(callee); fc != nil && !fc.Inline && (callee != c.top || len(c.inlineStack) == 0 && fr.top) {
 		// a closure's contract may name its captured variables
 		names := paramNames(callee)
 		cargs := args
@@ -233,8 +263,23 @@ func (fr *Frame) staticCall(callee *ssa.Function, free []Val, args []Val, st *St
 		}
 		return c.inline(FuncV{Fn: callee, Free: free, Sig: callee.Signature}, args, st, pos)
 	}
-	// external: havoc the results, trust nothing else
-	c.note("external call " + callee.String() + " modelled as returning unconstrained values without side effects (A-EXTERNAL)")
+	// external: havoc the results and every struct object passed by pointer
+	for _, a := range args {
+		var sp StructPtr
+		switch x := a.(type) {
+		case StructPtr:
+			sp = x
+		case IfaceV:
+			if cs, ok := x.Conc.(StructPtr); ok {
+				sp = cs
+			}
+		}
+		if sp.Typ != nil && strings.HasPrefix(typeKeyPkg(sp.Nm), modulePrefix) {
+			fr.havocStruct(st, sp.Ref, sp.Key, sp.Typ)
+			c.note("external call " + callee.String() + " may overwrite the struct passed by pointer: its fields are unconstrained afterwards")
+		}
+	}
+	c.note("external call " + callee.String() + " modelled as returning unconstrained values without other side effects (A-EXTERNAL)")
 	var out []Val
 	rs := callee.Signature.Results()
 	for i := 0; i < rs.Len(); i++ {
@@ -406,7 +451,19 @@ func (fr *Frame) callByContract(fc *FuncContract, sig *types.Signature, srcNames
 		if cl.Kind != "ensures" || done[cl] {
 			continue
 		}
-		c.assume(st.reach, c.evalBool(post, cl.Expr))
+		// a postcondition that speaks about the callee's locals is proved for
+		// the callee but is not available to callers
+		func() {
+			defer func() {
+				if r := recover(); r != nil {
+					if e, ok := r.(vcError); ok && strings.Contains(e.msg, "cannot be resolved") {
+						return
+					}
+					panic(r)
+				}
+			}()
+			c.assume(st.reach, c.evalBool(post, cl.Expr))
+		}()
 	}
 	return out
 }
@@ -819,4 +876,27 @@ func (c *Ctx) structByName(name string) (StructPtr, bool) {
 		return StructPtr{}, false
 	}
 	return StructPtr{Key: typeKey(obj.Type()), Typ: st, Nm: obj.Type()}, true
+}
+
+func typeKeyPkg(t types.Type) string {
+	if nt, ok := t.(*types.Named); ok && nt.Obj().Pkg() != nil {
+		return nt.Obj().Pkg().Path()
+	}
+	return ""
+}
+
+// havocStruct gives every field of the struct object ref an unconstrained value.
+func (fr *Frame) havocStruct(st *State, ref T, key string, s *types.Struct) {
+	for i := 0; i < s.NumFields(); i++ {
+		f := s.Field(i)
+		if es, ok := f.Type().Underlying().(*types.Struct); ok {
+			if f.Embedded() {
+				fr.havocStruct(st, ref, typeKey(f.Type()), es)
+			} else {
+				fr.havocStruct(st, ref, key+"."+f.Name(), es)
+			}
+			continue
+		}
+		fr.storeLoc(st, "F."+key+"."+f.Name(), ref, f.Type(), fr.c.freshVal(st, "ext_"+f.Name(), f.Type()))
+	}
 }
